@@ -145,16 +145,15 @@ def run_case(case, scratch):
             pass
 
     both = {signal.SIGINT, signal.SIGTERM}
-    if pend:
-        signal.pthread_sigmask(signal.SIG_BLOCK, both)   # what ensure_running() does around the spawn
+    # what ensure_running() does around the spawn: the tracker inherits the blocked mask
+    signal.pthread_sigmask(signal.SIG_BLOCK, both)
     try:
         p = subprocess.Popen(cmd, pass_fds=[r], cwd=root, stdin=subprocess.DEVNULL, stdout=subprocess.DEVNULL,
                              stderr=errf, start_new_session=True)
         for name, target in pend:
             send_sig(p, name, target)
     finally:
-        if pend:
-            signal.pthread_sigmask(signal.SIG_UNBLOCK, both)
+        signal.pthread_sigmask(signal.SIG_UNBLOCK, both)
     os.close(r)
     errf.close()
     log = Tail(logp)
